@@ -1,7 +1,10 @@
 -------------------------------- MODULE Worker --------------------------------
 (***************************************************************************)
 (* worker.Run (query/worker.go :86) as a state machine.  pc: "idle" (first *)
-(* select :97), "work" (inner loop :158), "exit".  The driver receives the *)
+(* select :97), "work" (inner loop :158), "exit".  Time is VIRTUAL (the     *)
+(* driver runs worker.Run inside a testing/synctest bubble): Tick = half a *)
+(* job timeout passes; the timer :154 expires after two Ticks without a    *)
+(* restart, whatever else the peer sent meanwhile.  The driver receives the*)
 (* result in the step that produces it (the channel is unbuffered, as the  *)
 (* dispatcher's), except in QuitDuring = the hand-off select :245 with     *)
 (* quit closed and no receiver left.  Actions <-> code: Job = TakeJob :99 + the cancel pre-check*)
@@ -11,10 +14,11 @@
 (***************************************************************************)
 EXTENDS Integers, Sequences, FiniteSets, TLC, Json, WorkerProps
 
-CONSTANTS MaxJobs, MaxMsgs
+CONSTANTS MaxJobs, MaxMsgs, MaxTicks
 
-VARIABLES pc, short, res, queued, handled, fin, njobs, nmsgs, canc, abs, act, viol
-vars == <<pc, short, res, queued, handled, fin, njobs, nmsgs, canc, abs, act, viol>>
+\* quiet: virtual time since the job's timer was (re)started, in HALF timeouts.
+VARIABLES pc, quiet, res, queued, handled, fin, njobs, nmsgs, nticks, canc, abs, act, viol
+vars == <<pc, quiet, res, queued, handled, fin, njobs, nmsgs, nticks, canc, abs, act, viol>>
 
 Obs == [res |-> res, queued |-> queued, handled |-> handled, fin |-> fin, early |-> 0,
         exited |-> IF pc = "exit" THEN 1 ELSE 0]
@@ -24,58 +28,68 @@ Finish(a) ==
 
 A(op, r, x, y) == [op |-> op, res |-> r, x |-> x, y |-> y]
 
-Job(s, pre) ==
+Job(pre) ==
   /\ pc = "idle" /\ njobs < MaxJobs
-  /\ njobs' = njobs + 1 /\ short' = s /\ canc' = pre
-  /\ UNCHANGED <<handled, fin, nmsgs>>
+  /\ njobs' = njobs + 1 /\ quiet' = 0 /\ canc' = pre
+  /\ UNCHANGED <<handled, fin, nmsgs, nticks>>
   /\ IF pre # 0
      THEN /\ pc' = "idle" /\ res' = Append(res, 3) /\ UNCHANGED queued
-          /\ Finish(A("Job", "r3", s, pre))
+          /\ Finish(A("Job", "r3", 0, pre))
      ELSE /\ pc' = "work" /\ queued' = queued + 1 /\ UNCHANGED res
-          /\ Finish(A("Job", "none", s, pre))
+          /\ Finish(A("Job", "none", 0, pre))
 
+\* k = 0: a message the handler does not care about (no progress: the timer
+\* keeps running), 1: partial progress (the timer is restarted :185), 2: the
+\* answer.
 Msg(k) ==
   /\ pc \in {"idle", "work"} /\ nmsgs < MaxMsgs
   /\ nmsgs' = nmsgs + 1
-  /\ UNCHANGED <<short, queued, njobs, canc>>
+  /\ UNCHANGED <<queued, njobs, nticks, canc>>
   /\ IF pc = "idle"
-     THEN /\ UNCHANGED <<pc, res, handled, fin>> /\ Finish(A("Msg", "none", k, 0))
+     THEN /\ UNCHANGED <<pc, res, handled, fin, quiet>> /\ Finish(A("Msg", "none", k, 0))
      ELSE /\ handled' = handled + 1
+          /\ quiet' = IF k = 1 THEN 0 ELSE quiet
           /\ IF k = 2
              THEN /\ fin' = fin + 1 /\ pc' = "idle" /\ res' = Append(res, 0)
                   /\ Finish(A("Msg", "r0", k, 0))
              ELSE /\ UNCHANGED <<fin, pc, res>> /\ Finish(A("Msg", "none", k, 0))
 
-Timeout ==
-  /\ pc = "work" /\ short = 1
-  /\ pc' = "idle" /\ res' = Append(res, 1)
-  /\ UNCHANGED <<short, queued, handled, fin, njobs, nmsgs, canc>>
-  /\ Finish(A("Timeout", "r1", 0, 0))
+\* Half a job timeout of (virtual) time passes while the worker waits for the
+\* answer.  The second half without progress is the timeout :199.
+Tick ==
+  /\ pc = "work" /\ nticks < MaxTicks
+  /\ nticks' = nticks + 1
+  /\ UNCHANGED <<queued, handled, fin, njobs, nmsgs, canc>>
+  /\ IF quiet = 1
+     THEN /\ pc' = "idle" /\ res' = Append(res, 1) /\ quiet' = 0
+          /\ Finish(A("Tick", "r1", 0, 0))
+     ELSE /\ quiet' = quiet + 1 /\ UNCHANGED <<pc, res>>
+          /\ Finish(A("Tick", "none", 0, 0))
 
 Disconnect ==
   /\ pc \in {"idle", "work"}
   /\ pc' = "exit"
   /\ res' = IF pc = "work" THEN Append(res, 2) ELSE res
-  /\ UNCHANGED <<short, queued, handled, fin, njobs, nmsgs, canc>>
+  /\ UNCHANGED <<quiet, queued, handled, fin, njobs, nmsgs, nticks, canc>>
   /\ Finish(A("Disconnect", IF pc = "work" THEN "r2" ELSE "exit", 0, 0))
 
 Cancel(x) ==
   /\ pc = "work" /\ canc = 0
   /\ canc' = x /\ pc' = "idle" /\ res' = Append(res, 3)
-  /\ UNCHANGED <<short, queued, handled, fin, njobs, nmsgs>>
+  /\ UNCHANGED <<quiet, queued, handled, fin, njobs, nmsgs, nticks>>
   /\ Finish(A("Cancel", "r3", x, 0))
 
 Quit ==
   /\ pc \in {"idle", "work"}
   /\ pc' = "exit"
-  /\ UNCHANGED <<short, res, queued, handled, fin, njobs, nmsgs, canc>>
+  /\ UNCHANGED <<quiet, res, queued, handled, fin, njobs, nmsgs, nticks, canc>>
   /\ Finish(A("Quit", "exit", 0, 0))
 
 \* :245-253  quit is closed while the worker has a result that nobody takes
 \* (the dispatcher returned first): Run must return without delivering it.
+\* x = 4: the rest of the timeout passes first.
 QuitDuring(x) ==
   /\ pc = "work"
-  /\ x = 4 => short = 1
   /\ x = 3 => canc = 0
   /\ x \in {0, 1} => nmsgs < MaxMsgs
   /\ pc' = "exit"
@@ -83,24 +97,24 @@ QuitDuring(x) ==
   /\ fin' = IF x \in {0, 1} THEN fin + 1 ELSE fin
   /\ nmsgs' = IF x \in {0, 1} THEN nmsgs + 1 ELSE nmsgs
   /\ canc' = IF x = 3 THEN 1 ELSE canc
-  /\ UNCHANGED <<short, res, queued, njobs>>
+  /\ UNCHANGED <<quiet, res, queued, njobs, nticks>>
   /\ Finish(A("QuitDuring", "exit", x, 0))
 
 Init ==
-  /\ pc = "idle" /\ short = 0 /\ res = <<>> /\ queued = 0 /\ handled = 0 /\ fin = 0
-  /\ njobs = 0 /\ nmsgs = 0 /\ canc = 0
+  /\ pc = "idle" /\ quiet = 0 /\ res = <<>> /\ queued = 0 /\ handled = 0 /\ fin = 0
+  /\ njobs = 0 /\ nmsgs = 0 /\ nticks = 0 /\ canc = 0
   /\ abs = AbsInit /\ act = A("Init", "none", 0, 0) /\ viol = {}
 
 Next ==
-  \/ \E s \in {0, 1} : \E pre \in {0, 1, 2} : Job(s, pre)
+  \/ \E pre \in {0, 1, 2} : Job(pre)
   \/ \E k \in {0, 1, 2} : Msg(k)
-  \/ Timeout \/ Disconnect \/ Quit
+  \/ Tick \/ Disconnect \/ Quit
   \/ \E x \in {1, 2} : Cancel(x)
   \/ \E x \in 0..4 : QuitDuring(x)
 
-TypeOK == pc \in {"idle", "work", "exit"}
+TypeOK == pc \in {"idle", "work", "exit"} /\ quiet \in 0..1
 NoViolation == viol = {}
-State == [pc |-> pc, short |-> short, res |-> res, queued |-> queued, handled |-> handled,
-          fin |-> fin, njobs |-> njobs, nmsgs |-> nmsgs, canc |-> canc]
-View == <<pc, short, res, queued, handled, fin, njobs, nmsgs, canc, abs>>
+State == [pc |-> pc, quiet |-> quiet, res |-> res, queued |-> queued, handled |-> handled,
+          fin |-> fin, njobs |-> njobs, nmsgs |-> nmsgs, nticks |-> nticks, canc |-> canc]
+View == <<pc, quiet, res, queued, handled, fin, njobs, nmsgs, nticks, canc, abs>>
 =============================================================================
